@@ -83,11 +83,17 @@ impl LogicalLineFileFormatter for OptimisingLineFormatter {
         /*
             After each line's solution has been finalised, the extra spaces
             provided by `TokenSpacing` can be removed at the starts of lines.
+
+            This has to wait until no line will be reflowed any more: a reflow
+            can move a token from the start of a line to the middle of one (it
+            then still needs its space) and vice versa.
         */
-        for token_index in 0..olf.formatted_tokens.len() {
-            if let Some(data) = olf.formatted_tokens.get_formatting_data_mut(token_index) {
-                if data.newlines_before > 0 {
-                    data.spaces_before = 0;
+        fn remove_spaces_at_line_starts(formatted_tokens: &mut FormattedTokens<'_>) {
+            for token_index in 0..formatted_tokens.len() {
+                if let Some(data) = formatted_tokens.get_formatting_data_mut(token_index) {
+                    if data.newlines_before > 0 {
+                        data.spaces_before = 0;
+                    }
                 }
             }
         }
@@ -110,6 +116,7 @@ impl LogicalLineFileFormatter for OptimisingLineFormatter {
             not cause any multi-line strings to change in indentation.
         */
         if !self.olf_settings.format_multiline_strings {
+            remove_spaces_at_line_starts(olf.formatted_tokens);
             return;
         }
 
@@ -138,6 +145,8 @@ impl LogicalLineFileFormatter for OptimisingLineFormatter {
                 olf.reconstruct_solution(&solution, line.1);
             }
         }
+
+        remove_spaces_at_line_starts(olf.formatted_tokens);
     }
 }
 impl OptimisingLineFormatter {
